@@ -286,10 +286,10 @@ def run_cluster_impl(inp):
     captured = []
     orig = static.Clusters.__dict__["from_pairs"].__func__
 
-    def wrapped(cls, pairs, length):
+    def wrapped(cls, pairs, *args, **kwargs):               # extra parameters are passed through
         pairs = list(pairs)
         captured.append([(int(a), int(b)) for a, b in pairs])
-        return orig(cls, pairs, length)
+        return orig(cls, pairs, *args, **kwargs)
     static.Clusters.from_pairs = classmethod(wrapped)
     try:
         kw = {}
